@@ -60,6 +60,38 @@ Proof.
 Qed.
 
 (* ---------- store_seq : what a successful store tells ---------- *)
+Lemma store_tail_done cfg ers bsz raw ll ml pos' st st' :
+  store_tail cfg ers bsz raw ll ml pos' st = Done st' ->
+  k_ip st' = k_ip st + add32 ml ll /\
+  k_cnt st' = k_cnt st /\
+  k_ip st + ll <= bsz /\
+  k_cnt st < g_maxNbSeq cfg /\
+  k_rep st' = snd (code_offset ers raw ll (k_rep st)) /\
+  k_acc st' = {| t_ll := ll; t_ml := ml; t_ob := fst (code_offset ers raw ll (k_rep st)); t_raw := raw |} :: k_acc st /\
+  k_pos st' = pos'.
+Proof.
+  unfold store_tail. destruct (code_offset ers raw ll (k_rep st)) as [ob rep'] eqn:Ec. cbn [fst snd].
+  destruct (ers && (ob =? 0) && negb (ll =? 0)); [discriminate|].
+  destruct (g_maxNbSeq cfg <=? k_cnt st) eqn:Em; [discriminate|].
+  destruct (bsz <? k_ip st + ll) eqn:Eb; [discriminate|].
+  intros H; inversion H; subst; cbn.
+  apply N.leb_gt in Em. apply N.ltb_ge in Eb. repeat split; auto.
+Qed.
+
+Lemma store_seq_tail cfg ers bsz raw ll ml st st' :
+  store_seq cfg ers bsz raw ll ml st = Done st' ->
+  exists pos', store_tail cfg ers bsz raw ll ml pos' st = Done st'.
+Proof.
+  unfold store_seq. destruct (g_fixed cfg).
+  - destruct ((k_ip st <=? bsz) && (bsz - k_ip st <? ll + ml)); [discriminate|].
+    destruct (g_validate cfg && negb (validate_fixed cfg raw ml (k_pos st + ll))); [discriminate|].
+    intros H; eexists; exact H.
+  - destruct (code_offset ers raw ll (k_rep st)) as [ob rep'].
+    destruct (ers && (ob =? 0) && negb (ll =? 0)); [discriminate|].
+    match goal with |- context [if ?c then Invalid 1 else _] => destruct c end; [discriminate|].
+    intros H; eexists; exact H.
+Qed.
+
 Lemma store_seq_done cfg ers bsz raw ll ml st st' :
   store_seq cfg ers bsz raw ll ml st = Done st' ->
   k_ip st' = k_ip st + add32 ml ll /\
@@ -67,27 +99,34 @@ Lemma store_seq_done cfg ers bsz raw ll ml st st' :
   k_ip st + ll <= bsz /\
   k_cnt st < g_maxNbSeq cfg /\
   k_rep st' = snd (code_offset ers raw ll (k_rep st)) /\
-  k_acc st' = {| t_ll := ll; t_ml := ml; t_ob := fst (code_offset ers raw ll (k_rep st)); t_raw := raw |} :: k_acc st /\
-  k_pos st' = (if g_validate cfg then k_pos st + add32 ll ml else k_pos st) /\
-  (g_validate cfg = true ->
-     validate_sequence cfg (if g_vraw cfg then raw + 3 else fst (code_offset ers raw ll (k_rep st))) ml
-                       (validate_pos cfg (k_pos st + add32 ll ml) ml) = true).
+  k_acc st' = {| t_ll := ll; t_ml := ml; t_ob := fst (code_offset ers raw ll (k_rep st)); t_raw := raw |} :: k_acc st.
 Proof.
-  unfold store_seq. destruct (code_offset ers raw ll (k_rep st)) as [ob rep'] eqn:Ec. cbn [fst snd].
-  destruct (ers && (ob =? 0) && negb (ll =? 0)); [discriminate|].
-  destruct (g_validate cfg) eqn:Ev.
-  - cbn [andb].
-    destruct (validate_sequence cfg (if g_vraw cfg then raw + 3 else ob) ml (validate_pos cfg (k_pos st + add32 ll ml) ml)) eqn:Eval;
-      cbn [negb]; [|discriminate].
-    destruct (g_maxNbSeq cfg <=? k_cnt st) eqn:Em; [discriminate|].
-    destruct (bsz <? k_ip st + ll) eqn:Eb; [discriminate|].
-    intros H; inversion H; subst; cbn.
-    apply N.leb_gt in Em. apply N.ltb_ge in Eb. repeat split; auto.
-  - cbn [andb].
-    destruct (g_maxNbSeq cfg <=? k_cnt st) eqn:Em; [discriminate|].
-    destruct (bsz <? k_ip st + ll) eqn:Eb; [discriminate|].
-    intros H; inversion H; subst; cbn.
-    apply N.leb_gt in Em. apply N.ltb_ge in Eb. repeat split; auto. discriminate.
+  intros H. destruct (store_seq_tail _ _ _ _ _ _ _ _ H) as [pos' Ht].
+  apply store_tail_done in Ht. tauto.
+Qed.
+
+(* repaired variant: the three tests that precede the store *)
+Lemma store_seq_fixed_done cfg ers bsz raw ll ml st st' :
+  g_fixed cfg = true ->
+  store_seq cfg ers bsz raw ll ml st = Done st' ->
+  (k_ip st <= bsz -> ll + ml <= bsz - k_ip st) /\
+  (g_validate cfg = true -> validate_fixed cfg raw ml (k_pos st + ll) = true /\ k_pos st' = k_pos st + ll + ml) /\
+  (g_validate cfg = false -> k_pos st' = k_pos st).
+Proof.
+  unfold store_seq. intros Hf. rewrite Hf.
+  destruct ((k_ip st <=? bsz) && (bsz - k_ip st <? ll + ml)) eqn:E1; [discriminate|].
+  destruct (g_validate cfg) eqn:Ev; cbn [andb].
+  - destruct (validate_fixed cfg raw ml (k_pos st + ll)) eqn:E2; cbn [negb]; [|discriminate].
+    intros H. apply store_tail_done in H. destruct H as (_ & _ & _ & _ & _ & _ & Hp).
+    repeat split; auto; try discriminate.
+    intros Hle. apply andb_false_iff in E1. destruct E1 as [E1|E1].
+    + apply N.leb_gt in E1. lia.
+    + apply N.ltb_ge in E1. exact E1.
+  - intros H. apply store_tail_done in H. destruct H as (_ & _ & _ & _ & _ & _ & Hp).
+    repeat split; auto; try discriminate.
+    intros Hle. apply andb_false_iff in E1. destruct E1 as [E1|E1].
+    + apply N.leb_gt in E1. lia.
+    + apply N.ltb_ge in E1. exact E1.
 Qed.
 
 (* ---------- decoder view of an accumulated seqStore (newest first) ---------- *)
@@ -127,7 +166,7 @@ Lemma store_seq_lockstep_ers cfg bsz raw ll ml st st' rep0 :
   dec_rel rep0 (k_acc st') (k_rep st') /\ rep_ok (k_rep st').
 Proof.
   intros Hs Hr H1 H2 Hd. apply store_seq_done in Hs.
-  destruct Hs as (_ & _ & _ & _ & Hrep & Hacc & _).
+  destruct Hs as (_ & _ & _ & _ & Hrep & Hacc).
   unfold code_offset in Hrep, Hacc. cbn [fst snd] in Hrep, Hacc.
   destruct (finalize_lockstep raw ll (k_rep st) Hr H1 H2) as (Hres & Hok & _).
   rewrite Hacc, Hrep. split; [|exact Hok].
@@ -204,7 +243,7 @@ Proof.
     + destruct (store_seq cfg false bsz (q_off s) (q_ll s) (q_ml s) st) as [st1| |] eqn:Es; cbn in H; try discriminate.
       inversion HF as [|? ? Hs HF']; subst.
       destruct (off_ok_nondelim _ Hs Ed) as [H1 H2].
-      apply store_seq_done in Es. destruct Es as (_ & _ & _ & _ & Hrep & Hacc & _).
+      apply store_seq_done in Es. destruct Es as (_ & _ & _ & _ & Hrep & Hacc).
       unfold code_offset in Hrep, Hacc; cbn [fst snd] in Hrep, Hacc.
       destruct (bump_fields st1) as (Ea & Er & _).
       eapply IH; [exact H|exact HF'| | |].
